@@ -144,13 +144,18 @@ Proof.
   - destruct ((-128 <=? d) && (d <=? 127)); [right; left|right; right; left]; reflexivity.
 Qed.
 
+Lemma shapes32_no16 : forallb (fun x => match x with (b, i, _, _, _, _) => negb (is16reg b || is16reg i) end) shapes32 = true.
+Proof. vm_compute. reflexivity. Qed.
+
 Theorem modrm32_sound : forall b i sc eb ei esc reg d rest,
   In (b, i, sc, eb, ei, esc) shapes32 -> In reg regs8 -> - 2 ^ 31 <= d < 2 ^ 31 ->
   modrm32_ok (mk_mem b i sc d) eb ei esc reg d rest.
 Proof.
   intros b i sc eb ei esc reg d rest Hs Hr Hd.
   pose proof (shape_ok_all _ _ _ Hs (dclass_of d) Hr) as OK. unfold shape_ok in OK.
-  unfold modrm32_ok, calc_modrm, calc32. cbn [m_disp m_base m_index m_scale mk_mem].
+  assert (H16 : is16reg b || is16reg i = false).
+  { pose proof shapes32_no16 as S16. rewrite forallb_forall in S16. specialize (S16 _ Hs). cbn in S16. apply negb_true_iff in S16. exact S16. }
+  unfold modrm32_ok, calc_modrm, calc32. cbn [m_disp m_base m_index m_scale mk_mem]. rewrite H16. cbn [negb].
   set (direct := String.eqb b "" && String.eqb i "") in *.
   set (f8 := (-128 <=? d) && (d <=? 127)) in *.
   change (if negb (negb (d =? 0) || direct) && negb direct then 0 else if f8 then 64 else 128) with (mod0_of direct (d =? 0) f8).
@@ -202,5 +207,5 @@ Proof.
   repeat (apply andb_prop in H; destruct H as [H ?]).
   repeat match goal with H : negb ?c = true |- _ => apply negb_true_iff in H; rewrite H end.
   match goal with H : (is32reg b || is32reg i) = true |- _ => rewrite H end.
-  reflexivity.
+  cbn [negb]. destruct (negb (is16reg b || is16reg i)); reflexivity.
 Qed.
